@@ -50,12 +50,19 @@ def pyfun(defname: str):
         if defname == "Stat_get_attack_coefficient_" + t:
             return lambda a, t=t: a.get_attack_coefficient(base.AttackType[t])
     if defname == "LevelAdvantage_get_advantage":
-        def adv(m, c):
+        def adv(self, m, c):
             try:
-                return dpm.LevelAdvantage().get_advantage(m, c)
+                return self.get_advantage(m, c)
             except IndexError:
                 return None
         return adv
+    if defname.startswith("DamageCalculator_") and defname.endswith("_get_damage"):
+        def gd(self, log):
+            try:
+                return self.get_damage(log)
+            except ValueError:
+                return None
+        return gd
     for cls in ("STRBasedDamageLogic", "INTBasedDamageLogic", "DEXBasedDamageLogic",
                 "LUKBasedDamageLogic", "LUKBasedDualSubDamageLogic"):
         if defname.startswith(cls + "_"):
@@ -107,6 +114,8 @@ def rnd_stat(rng, profile="any"):
 
 def rnd_value(rng, t, profile="any"):
     base, damage, _p = load()
+    if t == "S":
+        return rng.choice(["global.damage", "global.dot", "x"])
     if t == "Q":
         return rnd_num(rng, "num")
     if t == "B":
@@ -125,6 +134,20 @@ def rnd_value(rng, t, profile="any"):
         if c == "ExtendedStat":
             return base.ExtendedStat(stat=rnd_stat(rng, profile), action_stat=rnd_value(rng, ("rec", "ActionStat")),
                                      level_stat=rnd_value(rng, ("rec", "LevelStat")))
+        if c == "LevelAdvantage":
+            return _p.LevelAdvantage()
+        if c == "DamageLog":
+            from simaple.simulate.report.base import DamageLog
+            return DamageLog(name=rng.choice(["a", "skill b"]), damage=rng.choice([0.0, float(rng.randint(1, 900)), rng.uniform(0, 900)]),
+                             hit=float(rng.randint(0, 15)), buff=rnd_stat(rng, profile),
+                             tag=rng.choice(["global.damage", "global.dot", "global.damage", "global.delay"]))
+        if c.startswith("DamageCalculator_"):
+            short = c[len("DamageCalculator_"):]
+            lc = {"STR": "STRBasedDamageLogic", "INT": "INTBasedDamageLogic", "DEX": "DEXBasedDamageLogic",
+                  "LUK": "LUKBasedDamageLogic", "LUKDual": "LUKBasedDualSubDamageLogic"}[short]
+            return _p.DamageCalculator(character_spec=rnd_stat(rng, profile), damage_logic=rnd_value(rng, ("rec", lc)),
+                                       armor=rng.choice([0, 100, 300, 380]), level_advantage=rng.choice([1.0, 1.2, 0.83]),
+                                       force_advantage=rng.choice([1.0, 1.5, 0.7]))
         if hasattr(damage, c):
             return getattr(damage, c)(attack_range_constant=rng.choice([1.0, 1.2, 1.3, 1.34, 1.5, rng.uniform(0.5, 2)]),
                                       mastery=rng.choice([0.0, 1.0, 0.9, 0.95, rng.uniform(0, 1)]))
